@@ -601,6 +601,14 @@ class Tensor:
         for i in range(self.a.shape[0]):
             yield self[i]
 
+    def __getattr__(self, name):
+        if name.startswith('_'):
+            raise AttributeError(name)
+        known = _names().get('Tensor')
+        if known is not None and name not in known:
+            raise AttributeError("'Tensor' object has no attribute '%s'" % name)
+        unsupported('Tensor.' + name)
+
 
 # autograd bookkeeping hooks (filled in by tv.autograd when used) ---------------
 def _mk(a, dt, parents=(), view=False):
@@ -670,9 +678,10 @@ def _norm_key(t, key):
             if z3.is_int_value(ts):
                 out.append(ts.as_long())
             else:
-                if adv is not None:
-                    unsupported('more than one symbolic/advanced index')
-                adv = ('sym', len(out), k)
+                if adv is not None and adv[0] != 'sym':
+                    unsupported('symbolic index combined with an advanced index')
+                if adv is None:
+                    adv = ('sym', len(out), k)
                 out.append(k)
         elif _isinstance(k, Tensor):
             if k.dtype.cat > 1:
@@ -682,9 +691,10 @@ def _norm_key(t, key):
             if k.a.ndim == 0:
                 v = k.a[()]
                 if _isinstance(v, SymInt):
-                    if adv is not None:
-                        unsupported('more than one symbolic/advanced index')
-                    adv = ('sym', len(out), v)
+                    if adv is not None and adv[0] != 'sym':
+                        unsupported('symbolic index combined with an advanced index')
+                    if adv is None:
+                        adv = ('sym', len(out), v)
                     out.append(v)
                 else:
                     out.append(int(v))
@@ -703,6 +713,31 @@ def _norm_key(t, key):
             raise TypeError('invalid index of type %s' % type(k).__name__)
     if not has_ell:
         out.append(Ellipsis)
+    nsym = _py_sum(1 for k in out if _isinstance(k, SymInt))
+    if nsym and (SELECT_MODE == 'fork' or nsym > 1):
+        # fork every symbolic integer into a concrete position (explorer branches; range errors as torch raises them)
+        import z3
+        for pos, k in enumerate(out):
+            if not _isinstance(k, SymInt):
+                continue
+            axis = _axis_of(tuple(out), pos, t.a.ndim)
+            if axis >= t.a.ndim:
+                raise IndexError('too many indices for tensor of dimension %d' % t.a.ndim)
+            n = t.a.shape[axis]
+            if not SymBool(z3.And(k.t >= -n, k.t < n)):
+                raise IndexError('index out of range (symbolic)')
+            p_ = z3.If(k.t < 0, k.t + n, k.t)
+            ctx = cur()
+            val = n - 1
+            for j in range(n - 1):
+                if ctx.branch(p_ == j):
+                    val = j
+                    break
+            else:
+                ctx.pc.append(p_ == n - 1)
+            out[pos] = val
+        if adv is not None and adv[0] == 'sym':
+            adv = None
     return tuple(out), adv
 
 
@@ -732,8 +767,15 @@ def _axis_of(key, pos, ndim):
     raise AssertionError
 
 
-def _sym_select(a, axis, idx):
-    """ite-chain selection a.take(idx, axis) for symbolic integer idx (negative allowed)."""
+SELECT_MODE = 'fork'     # 'fork': explorer branches over the position; 'ite': if-then-else chain terms
+
+
+def _take(a, j, axis):
+    return a[(slice(None),) * axis + (j, Ellipsis)]
+
+
+def _sym_select(a, axis, idx, mode=None):
+    """a.take(idx, axis) for a symbolic integer idx (negative allowed)."""
     import z3
     n = a.shape[axis]
     ok = SymBool(z3.And(idx.t >= -n, idx.t < n))
@@ -742,7 +784,14 @@ def _sym_select(a, axis, idx):
     if n == 0:
         raise IndexError('index into empty axis')
     pos = z3.If(idx.t < 0, idx.t + n, idx.t)
-    sl = [_np.take(a, j, axis=axis) for j in range(n)]
+    if (mode or SELECT_MODE) == 'fork':
+        ctx = cur()
+        for j in range(n - 1):
+            if ctx.branch(pos == j):
+                return _take(a, j, axis)
+        ctx.pc.append(pos == n - 1)
+        return _take(a, n - 1, axis)
+    sl = [_take(a, j, axis) for j in range(n)]
     res = _np.empty(sl[0].shape, dtype=object)
     it = _np.ndindex(res.shape) if res.ndim else [()]
     for ix in it:
@@ -817,7 +866,7 @@ def _getitem(t, key):
         outs = []
         for v in ia.flat:
             vv = v if _isinstance(v, SymInt) else SymInt.lift(v)
-            outs.append(_sym_select(base, ax2, vv))
+            outs.append(_sym_select(base, ax2, vv, 'ite'))
         st = _np.stack(outs, axis=ax2) if outs else base.take([], axis=ax2)
         st = st.reshape(st.shape[:ax2] + ia.shape + st.shape[ax2 + 1:])
         return _mk(st, t.dtype, (t,))
@@ -1398,6 +1447,10 @@ functional.pad = _pad
 # --------------------------------------------------------------------------- linalg
 class _Linalg(types.ModuleType):
     def __getattr__(self, name):
+        known = _names().get('linalg')
+        if known is not None and name not in known:
+            raise AttributeError("module 'torch.linalg' has no attribute '%s'" % name)
+
         def f(*a, **k):
             unsupported('torch.linalg.' + name)
         return f
@@ -1597,9 +1650,27 @@ cuda.is_available = lambda: False
 __version__ = 'symtorch'
 
 
+_NAMES = None
+
+
+def _names():
+    global _NAMES
+    if _NAMES is None:
+        import json
+        import os
+        try:
+            _NAMES = json.load(open(os.path.join(os.path.dirname(__file__), '_torch_names.json')))
+        except Exception:
+            _NAMES = {}
+    return _NAMES
+
+
 def __getattr__(name):
     if name.startswith('__'):
         raise AttributeError(name)
+    known = _names().get('torch')
+    if known is not None and name not in known:
+        raise AttributeError("module 'torch' has no attribute '%s'" % name)
 
     def f(*a, **k):
         unsupported('torch.' + name)
